@@ -438,7 +438,26 @@ func c03Surrogates(c *Ctx, g *load.G) {
 			}
 			return true
 		}
-		if !conj(is.Cond) || lo < 0 || hi < 0 {
+		// the interval test may be one disjunct of the rejecting condition (err != nil || lo <= r && r <= hi)
+		okIv := false
+		var disj func(e ast.Expr)
+		disj = func(e ast.Expr) {
+			e = stripParens(e)
+			if be, ok := e.(*ast.BinaryExpr); ok && be.Op == token.LOR {
+				disj(be.X)
+				disj(be.Y)
+				return
+			}
+			l0, h0 := lo, hi
+			lo, hi = -1, -1
+			if conj(e) && lo >= 0 && hi >= 0 {
+				okIv = true
+				return
+			}
+			lo, hi = l0, h0
+		}
+		disj(is.Cond)
+		if !okIv {
 			return true
 		}
 		found = true
@@ -526,14 +545,31 @@ func c03Operators(c *Ctx, g *load.G) {
 				}
 			}
 		}
+		var handleIf func(x *ast.IfStmt) bool
+		handleIf = func(x *ast.IfStmt) bool {
+			cond := canonCond(x.Cond, false)
+			i := strings.Index(cond, `=="`)
+			if i <= 0 || !strings.HasSuffix(cond, `"`) {
+				return false
+			}
+			op := cond[i+3 : len(cond)-1]
+			explicit = append(explicit, op)
+			record(op, x.Body)
+			// an else-if chain continues the mapping; a final else is the default branch
+			switch e := x.Else.(type) {
+			case *ast.IfStmt:
+				if !handleIf(e) {
+					record("default", e)
+				}
+			case *ast.BlockStmt:
+				record("default", e)
+			}
+			return true
+		}
 		ast.Inspect(fd.Body, func(n ast.Node) bool {
 			switch x := n.(type) {
 			case *ast.IfStmt:
-				cond := nospace(x.Cond)
-				if i := strings.Index(cond, `=="`); i > 0 && strings.HasSuffix(cond, `"`) {
-					op := cond[i+3 : len(cond)-1]
-					explicit = append(explicit, op)
-					record(op, x.Body)
+				if handleIf(x) {
 					return false
 				}
 			case *ast.CaseClause:
@@ -615,15 +651,75 @@ func c03Operators(c *Ctx, g *load.G) {
 		r.Unk("C03-d", "A.pigeon.go:RecoveryExpr:left-nested-chain", "", "pigeon.go", "action method not found")
 		return
 	}
-	txt := ""
+	// the chain: acc := <first param>.(ast.Expression); for each recovery part: node := ast.NewRecoveryExpr(..);
+	// node.Expr = acc; node.RecoverExpr = part[7]; node.Labels = part[3]; acc = node; return acc - checked on the
+	// assignments with single-definition locals inlined, so that names and helper locals do not matter
+	var bad []string
+	var loop *ast.RangeStmt
 	ast.Inspect(fd.Body, func(n ast.Node) bool {
-		if as, ok := n.(*ast.AssignStmt); ok {
-			txt += nospace(as.Lhs[0]) + "=" + nospace(as.Rhs[0]) + ";"
+		if rs, ok := n.(*ast.RangeStmt); ok && loop == nil {
+			loop = rs
 		}
 		return true
 	})
-	ok := strings.Contains(txt, "recover=expr.(ast.Expression);") && strings.Contains(txt, "r.Expr=recover;") && strings.Contains(txt, "r.RecoverExpr=sl.([]any)[7].(ast.Expression);") && strings.Contains(txt, "r.Labels=sl.([]any)[3].([]ast.FailureLabel);") && strings.Contains(txt, "recover=r;")
-	r.Check(ok, "C03-d", "A.pigeon.go:RecoveryExpr:left-nested-chain", "", g.Where(fd.Pos()), "each //{…} wraps the chain built so far as its guarded expression", "assignments are ["+txt+"]")
+	if loop == nil || loop.Value == nil {
+		bad = append(bad, "no loop over the recovery parts")
+	} else {
+		elem := nospace(loop.Value)
+		node, acc := "", ""
+		ast.Inspect(loop.Body, func(n ast.Node) bool {
+			if as, ok := n.(*ast.AssignStmt); ok && len(as.Lhs) == 1 && len(as.Rhs) == 1 {
+				if ce, ok := as.Rhs[0].(*ast.CallExpr); ok && callName(ce) == "ast.NewRecoveryExpr" {
+					node = nospace(as.Lhs[0])
+				}
+			}
+			return true
+		})
+		ast.Inspect(loop.Body, func(n ast.Node) bool {
+			if as, ok := n.(*ast.AssignStmt); ok && len(as.Lhs) == 1 && len(as.Rhs) == 1 && as.Tok == token.ASSIGN && node != "" && nospace(as.Rhs[0]) == node {
+				acc = nospace(as.Lhs[0])
+			}
+			return true
+		})
+		if node == "" || acc == "" {
+			bad = append(bad, "no node built by ast.NewRecoveryExpr that becomes the chain built so far")
+		} else {
+			inl := inlineLocals(fd, map[string]bool{acc: true, node: true, elem: true})
+			fields := map[string]string{}
+			ast.Inspect(loop.Body, func(n ast.Node) bool {
+				if as, ok := n.(*ast.AssignStmt); ok && len(as.Lhs) == 1 && len(as.Rhs) == 1 && strings.HasPrefix(nospace(as.Lhs[0]), node+".") {
+					fields[strings.TrimPrefix(nospace(as.Lhs[0]), node+".")] = inl(as.Rhs[0])
+				}
+				return true
+			})
+			want := map[string]string{"Expr": acc, "RecoverExpr": elem + ".([]any)[7].(ast.Expression)", "Labels": elem + ".([]any)[3].([]ast.FailureLabel)"}
+			for f, w := range want {
+				if fields[f] != w {
+					bad = append(bad, "the new node's "+f+" is "+fields[f]+", expected "+w)
+				}
+			}
+			// initial value and result
+			first := firstParam(fd)
+			okInit, okRet := false, false
+			ast.Inspect(fd.Body, func(n ast.Node) bool {
+				switch x := n.(type) {
+				case *ast.AssignStmt:
+					if len(x.Lhs) == 1 && nospace(x.Lhs[0]) == acc && x.Pos() < loop.Pos() && inl(x.Rhs[0]) == first+".(ast.Expression)" {
+						okInit = true
+					}
+				case *ast.ReturnStmt:
+					if len(x.Results) == 2 && nospace(x.Results[0]) == acc && x.Pos() > loop.End() {
+						okRet = true
+					}
+				}
+				return true
+			})
+			if !okInit || !okRet {
+				bad = append(bad, fmt.Sprintf("chain starts from the guarded expression=%t, the chain is returned=%t", okInit, okRet))
+			}
+		}
+	}
+	r.Check(len(bad) == 0, "C03-d", "A.pigeon.go:RecoveryExpr:left-nested-chain", "", g.Where(fd.Pos()), "each //{…} wraps the chain built so far as its guarded expression", strings.Join(bad, "; "))
 }
 
 // flagMapping: the ignore-case suffix and the inversion prefix are mapped to the node flags unconditionally, in the
